@@ -219,7 +219,10 @@ Inductive case :=
    code (the atom is where the piece starts, the forward code matches the whole piece
    and every match length is enumerated) *)
 | ChainCase (p : pat) (pieces : list cpiece) (atoms : list atom) (kernel : nat) (hits : list hit)
-            (events : list event) (fwd_only : list nat) (d : bytes) (reported : list triple).
+            (events : list event) (fwd_only : list nat) (d : bytes) (reported : list triple)
+(* stream (g): a pattern compiled into plain Regexp sub-patterns, with the REAL atoms of
+   those sub-patterns: every start of an occurrence must be reachable from an atom *)
+| AtomsCase (p : pat) (atoms : list atom) (d : bytes) (reported : list triple).
 
 (* ---- stream (d) ------------------------------------------------------- *)
 Definition flags_eqb (a b : spflags) : bool :=
@@ -485,6 +488,23 @@ Definition chain_check (p : pat) (pieces : list cpiece) (atoms : list atom) (ker
                        (evs : list event) (fwd_only : list nat) (d : bytes) (rep : list triple) : bool :=
   chain_check_bits p pieces atoms kernel hits evs fwd_only d rep =? 0.
 
+(* ---- stream (g) ------------------------------------------------------- *)
+(* The search only looks where an atom occurs, and a regexp is verified forwards and
+   backwards FROM the atom: a start s of an occurrence can be found only if, for one of
+   the genuine lengths L at s, some atom occurs inside s .. s+L.  (An atom set that
+   does not cover an alternative of the regexp fails this on an occurrence that goes
+   through that alternative.) *)
+Definition atom_cover_ok (p : pat) (atoms : list atom) (d : bytes) : bool :=
+  forallb (fun sl : nat * list nat =>
+    let '(s, lens) := sl in
+    match lens with
+    | [] => true
+    | _ => existsb_lazy (fun L =>
+             existsb_lazy (fun q =>
+               existsb_lazy (fun a => Nat.leb (q + length (a_bytes a)) (s + L) && atom_at a d q) atoms)
+               (seq s (S L))) lens
+    end) (ref_scan p d).
+
 Fixpoint run_list (l : match_list) (adds : list (N * N * option N * bool)) : match_list * list bool :=
   match adds with
   | [] => (l, [])
@@ -510,6 +530,7 @@ Definition check_case (c : case) : bool :=
   | MLPanicCase _ => false
   | PipeCase p sps atoms _ k hits d rep => pipe_check p sps atoms k hits d rep
   | ChainCase p pieces atoms k hits evs fo d rep => chain_check p pieces atoms k hits evs fo d rep
+  | AtomsCase p atoms d rep => atom_cover_ok p atoms d
   | ScanCase p d mm panicked rep =>
       negb panicked &&
       (if limit_reached mm rep then
@@ -538,6 +559,7 @@ Definition spec_case (c : case) : bool :=
       if anchored then sound_b p d (ref_scan p d) rep && ascending_b (map t_start rep)
       else scan_spec p d None rep
   | ChainCase p _ _ _ _ _ _ d rep => scan_spec p d None rep
+  | AtomsCase p _ d rep => scan_spec p d None rep
   end.
 
 (* the reading of a WIDE regexp the chain bookkeeping implements (known finding
@@ -589,6 +611,12 @@ Definition diagnose (c : case) : N :=
       (if complete_b p d rs rep then 0 else 8) +
       (if chain_check p pieces atoms k hits evs fo d rep then 0 else 256) +
       1024 * chain_check_bits p pieces atoms k hits evs fo d rep +
+      (if sound_b p d rs rep then 0 else if wide_byte_gap_explains p d rep then 262144 else 0)
+  | AtomsCase p atoms d rep =>
+      let rs := ref_scan p d in
+      (if sound_b p d rs rep then 0 else 2) + (if ascending_b (map t_start rep) then 0 else 4) +
+      (if complete_b p d rs rep then 0 else 8) +
+      (if atom_cover_ok p atoms d then 0 else 524288) +
       (if sound_b p d rs rep then 0 else if wide_byte_gap_explains p d rep then 262144 else 0)
   | _ => 32
   end.
